@@ -34,7 +34,7 @@
 (* per state) -- the harness evaluates every GLM function on each of them. *)
 (***************************************************************************)
 EXTENDS GlmLinAlg, TLC, Json, IOUtils
-CONSTANTS Depth2, Depth3, Depth4, MaxEntry
+CONSTANTS Depth2, Depth3, Depth4, MaxEntry, X2, X3, X4
 VARIABLES n, e, d, s
 vars == <<n, e, d, s>>
 
@@ -65,21 +65,56 @@ Spec == Init /\ [][Next]_vars
 
 ----------------------------------------------------------------------------
 \* fixed partners: regular non-unimodular, singular (rank 1), a negated cyclic permutation, an upper triangular one
-BReg(k) == MFromFn(k, k, LAMBDA c, r : IF c = r THEN QI(c + 1) ELSE IF c > r THEN QI(1) ELSE IF c + 1 = r THEN QI(-1) ELSE QZero)
-BSing(k) == MFromFn(k, k, LAMBDA c, r : QI((c + 1) * r))
-BPerm(k) == MFromFn(k, k, LAMBDA c, r : IF (c % k) + 1 = r THEN QI(-1) ELSE QZero)
-BUp(k) == MFromFn(k, k, LAMBDA c, r : IF c >= r THEN QI(c + r) ELSE QZero)
+IBReg(k) == [i \in 1..(k * k) |-> LET c == Col(i, k) r == Row(i, k) IN IF c = r THEN c + 1 ELSE IF c > r THEN 1 ELSE IF c + 1 = r THEN -1 ELSE 0]
+IBSing(k) == [i \in 1..(k * k) |-> (Col(i, k) + 1) * Row(i, k)]
+IBPerm(k) == [i \in 1..(k * k) |-> IF (Col(i, k) % k) + 1 = Row(i, k) THEN -1 ELSE 0]
+IBUp(k) == [i \in 1..(k * k) |-> IF Col(i, k) >= Row(i, k) THEN Col(i, k) + Row(i, k) ELSE 0]
+IBs(k) == {IBReg(k), IBSing(k), IBPerm(k)}
+IV1(k) == [i \in 1..k |-> 2 * i - 3]
+ITr(k) == [i \in 1..k |-> 3 - i * i]
+BReg(k) == LIToQ(IBReg(k), k)
+BSing(k) == LIToQ(IBSing(k), k)
+BPerm(k) == LIToQ(IBPerm(k), k)
+BUp(k) == LIToQ(IBUp(k), k)
 Bs(k) == {BReg(k), BSing(k), BPerm(k)}
-V1(k) == [i \in 1..k |-> QI(2 * i - 3)]
-Tr(k) == [i \in 1..k |-> QI(3 - i * i)]
+V1(k) == LIVToQ(IV1(k))
+Tr(k) == LIVToQ(ITr(k))
 IsIntM(m) == \A i \in 1..Len(m.e) : LAQIsInt(m.e[i])
 VEq(a, b) == Len(a) = Len(b) /\ \A i \in 1..Len(a) : QEq(a[i], b[i])
-\* a named law: prints its name when it fails (TLC then reports the invariant Laws as violated)
+\* a named law: prints its name when it fails (TLC then reports the invariant as violated)
 Law(name, cond) == cond \/ (PrintT(<<"LAW VIOLATED", name>>) /\ FALSE)
 
+\* ---- the laws on the native-integer layer, in EVERY reachable state
+LawsInt ==
+    LET det == LIDet(e, n)
+        adj == LIAdj(e, n)
+        inv == LIInverseUni(e, n)
+        id == LIIdentity(n)
+        et == LITranspose(e, n)
+        v == IV1(n)
+    IN
+    /\ Law("I: det = sign predicted by the walk, +-1", det = s /\ s \in {-1, 1})
+    /\ Law("I: det transpose", LIDet(et, n) = det)
+    /\ Law("I: det multiplicative", \A B \in IBs(n) : /\ LIDet(LIMul(e, B, n), n) = det * LIDet(B, n)
+                                                     /\ LIDet(LIMul(B, e, n), n) = det * LIDet(B, n))
+    /\ Law("I: M adj = adj M = det I", LIMul(e, adj, n) = LIScale(id, det) /\ LIMul(adj, e, n) = LIScale(id, det))
+    /\ Law("I: inv M = M inv = I", LIMul(inv, e, n) = id /\ LIMul(e, inv, n) = id /\ LIDet(inv, n) = det)
+    /\ Law("I: inverseTranspose", LITranspose(inv, n) = LIInverseUni(et, n))
+    /\ Law("I: (B M) / M = B", \A B \in IBs(n) : LIMul(LIMul(B, e, n), inv, n) = B)
+    /\ Law("I: M / (M v) = v, (v M) / M = v", LIMulVec(inv, LIMulVec(e, v, n), n) = v /\ LIVecMul(LIVecMul(v, e, n), inv, n) = v)
+    /\ Law("I: v (A B) = (v A) B", LIVecMul(v, LIMul(e, IBReg(n), n), n) = LIVecMul(LIVecMul(v, e, n), IBReg(n), n) /\
+                                   LIMulVec(LIMul(e, IBReg(n), n), v, n) = LIMulVec(e, LIMulVec(IBReg(n), v, n), n))
+    /\ Law("I: affine embedding and affineInverse",
+           LET A == LIAffineFrom(e, ITr(n), n) AI == LIAffineInverseUni(A, n + 1) IN
+           /\ LIIsAffine(A, n + 1) /\ LIIsAffine(AI, n + 1) /\ LILinearPart(A, n + 1) = e /\ LITranslation(A, n + 1) = ITr(n)
+           /\ LIMul(AI, A, n + 1) = LIIdentity(n + 1) /\ LIMul(A, AI, n + 1) = LIIdentity(n + 1)
+           /\ LIAffineInverseUni(AI, n + 1) = A
+           /\ (n <= 3 => LIDet(A, n + 1) = det /\ AI = LIInverseUni(A, n + 1)))
+
+\* ---- the laws on the rational layer (LinQ) and the agreement of both layers, in the states of depth <= XDepth
 \* All laws are evaluated under one LET so that det / adj / inverse of the state are computed once.
-Laws ==
-    LET M == Mat(n, n, [i \in 1..(n * n) |-> QI(e[i])])
+LawsQ ==
+    LET M == LIToQ(e, n)
         IdM == MIdentity(n)
         Mt == MTranspose(M)
         Det == MDet(M)
@@ -88,6 +123,11 @@ Laws ==
         InvT == LAInverseTranspose(M)
         v == V1(n)
     IN
+    \* ---- both layers agree
+    /\ Law("Q = I: det, adj, inverse", /\ QEq(Det, QI(LIDet(e, n))) /\ MEq(Adj, LIToQ(LIAdj(e, n), n)) /\ MEq(Inv, LIToQ(LIInverseUni(e, n), n))
+                                       /\ MEq(MMul(M, BReg(n)), LIToQ(LIMul(e, IBReg(n), n), n))
+                                       /\ VEq(MVec(M, v), LIVToQ(LIMulVec(e, IV1(n), n))) /\ VEq(VMat(v, M), LIVToQ(LIVecMul(IV1(n), e, n)))
+                                       /\ MEq(Mt, LIToQ(LITranspose(e, n), n)))
     \* ---- InvDet
     /\ Law("det = sign predicted by the walk, +-1", QEq(Det, QI(s)) /\ s \in {-1, 1})
     /\ Law("Leibniz = Laplace", QEq(LALeibniz(M), Det))
@@ -115,8 +155,10 @@ Laws ==
     \* ---- InvAffine
     /\ (n <= 3 =>
           LET t == Tr(n) A == LAAffineFrom(M, t) AI == LAAffineInverse(A) IN
-          /\ Law("affine embedding", LAIsAffine(A) /\ LAIsAffine(AI) /\ MEq(LALinearPart(A), M) /\ VEq(LATranslation(A), t))
+          /\ Law("affine embedding", LAIsAffine(A) /\ LAIsAffine(AI) /\ MEq(LALinearPart(A), M) /\ VEq(LATranslation(A), t)
+                                     /\ MEq(A, LIToQ(LIAffineFrom(e, ITr(n), n), n + 1)))
           /\ Law("affineInverse = inverse", /\ MEq(AI, LAAffineInverseWith(Inv, t))
+                                            /\ MEq(AI, LIToQ(LIAffineInverseUni(LIAffineFrom(e, ITr(n), n), n + 1), n + 1))
                                             /\ MEq(MMul(AI, A), MIdentity(n + 1)) /\ MEq(MMul(A, AI), MIdentity(n + 1))
                                             /\ (n = 2 => MEq(AI, MInv(A))))
           /\ Law("affineInverse involution", MEq(LAAffineInverseWith(M, LATranslation(AI)), A))
@@ -130,6 +172,8 @@ Laws ==
        /\ Law("init signed permutation", d = 0 => sp)
        /\ Law("flips", /\ MEq(LAFlipLR(LAFlipLR(M)), M) /\ MEq(LAFlipUD(LAFlipUD(M)), M)
                        /\ MEq(LAFlipUD(M), MTranspose(LAFlipLR(Mt))))
+XDepth(k) == IF k = 2 THEN X2 ELSE IF k = 3 THEN X3 ELSE X4
+Laws == LawsInt /\ (d <= XDepth(n) => LawsQ)
 
 \* E2: every visited matrix, for the harness
 Emit == IF "OUT" \in DOMAIN IOEnv
@@ -148,5 +192,12 @@ ASSUME \A k \in 2..4 : /\ \A B \in Bs(k) \cup {BUp(k)} : QEq(LALeibniz(B), MDet(
                        /\ QEq(MDet(LADiagonal(k, k, V1(k))), LAProd(V1(k)))
                        /\ LAIsNullM(MSub(BReg(k), BReg(k)), QF(1, 10), QF(1, 1000)) = "T"
                        /\ ~LAIsAffine(BReg(k)) /\ ~LAIsAffine(MTranspose(LAAffineFrom(BReg(k), V1(k))))
+\* the small-integer decoder of bit patterns agrees with the IEEE module (float and double)
+ASSUME \A k \in -70..70 : \A f \in {F32, F64} :
+          /\ LISmallIntW(Pattern(f, RoundQ(f, QI(k * 29), 0))) = k * 29
+          /\ LISmallIntW(Pattern(f, RoundQ(f, QI(k), 0))) = k
+          /\ (k % 2 # 0 => LISmallIntW(Pattern(f, RoundQ(f, QF(k, 2), 0))) = LINotInt)
+          /\ (k # 0 => LISmallIntW(Pattern(f, RoundQ(f, QI(k * 2048), 0))) = LINotInt)
+ASSUME LISmallIntW(<<0, 32768>>) = 0 /\ LISmallIntW(<<0, 32640>>) = LINotInt /\ LISmallIntW(<<1, 0>>) = LINotInt /\ LISmallIntW(<<1, 0, 0, 16368>>) = LINotInt
 ASSUME Cardinality(LAPerms(4)) = 24 /\ LAPermSign(<<2, 1, 3, 4>>, 4) = -1 /\ LAPermSign(<<2, 3, 1>>, 3) = 1
 =============================================================================
